@@ -1385,6 +1385,11 @@ pub fn mem_churn_scenario(opts: ExecOpts, cycle_choices: &'static [u32]) -> Boxe
             });
             if second && bcast {
                 body.push(Op::TryRecv { rx: 65535 });
+                if traffic {
+                    // two values are sent per cycle: the second stream must keep up, or the queue
+                    // stays full and both threads only see refusals
+                    body.push(Op::TryRecv { rx: 65535 });
+                }
             }
             if traffic {
                 body.push(Op::Yield);
@@ -1402,6 +1407,10 @@ pub fn mem_churn_scenario(opts: ExecOpts, cycle_choices: &'static [u32]) -> Boxe
             let mut o = opts.clone();
             o.max_steps = 2_000_000_000;
             o.no_log = true;
+            // the two threads keep being preempted inside their calls for the whole run, not only
+            // during the first few hundred decisions (round-6 seed C17-7 needs one thread inside the
+            // manager's critical section at the moment the other crosses the retirement threshold)
+            o.cyclic_schedule = traffic;
             // priority schedules starve the low-priority thread inside retry loops for the whole
             // run, which makes the run inconclusive: use random-walk schedules here
             let sched = match sched.policy {
